@@ -403,6 +403,33 @@ func extractC05() *lean {
 	sort.Strings(ctor)
 	l.def("sessionDbConstructions", "List String", leanStrList(ctor), ctor)
 
+	// Put's early returns (conditions under which it silently stores nothing), and the literal expression every back-end
+	// builds a full key with
+	var early0 []string
+	if fd := funcDecl(sess, "Put"); fd != nil && fd.Body != nil {
+		ast.Inspect(fd.Body, func(n ast.Node) bool {
+			if is, ok := n.(*ast.IfStmt); ok && len(is.Body.List) == 1 {
+				if r, ok := is.Body.List[0].(*ast.ReturnStmt); ok && len(r.Results) == 1 && exprString(r.Results[0]) == "nil" {
+					early0 = append(early0, exprString(is.Cond))
+				}
+			}
+			return true
+		})
+	} else {
+		early0 = []string{"MISSING"}
+	}
+	l.def("putSilentSkips", "List String", leanStrList(early0), early0)
+	for _, f := range []struct{ name, file string }{{"joinExprMem", "storage/session_inmemory.go"}, {"joinExprMemcached", "storage/session_memcached.go"}, {"joinExprRedis", "storage/session_redis.go"}} {
+		_, af := parseFile(f.file)
+		expr := "NOT-FOUND"
+		if fd := funcDecl(af, "getFullKey"); fd != nil && fd.Body != nil && len(fd.Body.List) == 1 {
+			if r, ok := fd.Body.List[0].(*ast.ReturnStmt); ok && len(r.Results) == 1 {
+				expr = c05Expr(r.Results[0])
+			}
+		}
+		l.def(f.name, "String", fmt.Sprintf("%q", expr), expr)
+	}
+
 	// in-memory and redis key construction: strings.Join(append(prefixes, key), sep)
 	for _, f := range []struct{ name, file string }{{"memKeySep", "storage/session_inmemory.go"}, {"redisKeySep", "storage/session_redis.go"}} {
 		_, af := parseFile(f.file)
@@ -447,6 +474,20 @@ func extractC05() *lean {
 		keys := iam.storeCallKeys(c.fn)
 		l.def(c.name, "List String", leanStrList(keys), keys)
 	}
+	var arity []string
+	for _, fn := range []string{"validateS2SPresentationNonce", "ValidateDPoPProof"} {
+		if fd := iam.funcs[fn]; fd != nil && fd.Body != nil {
+			ast.Inspect(fd.Body, func(m ast.Node) bool {
+				if x, ok := m.(*ast.CallExpr); ok {
+					if sel, ok := x.Fun.(*ast.SelectorExpr); ok && sel.Sel.Name == "PutIfAbsent" {
+						arity = append(arity, fmt.Sprintf("%s:%d", fn, len(x.Args)))
+					}
+				}
+				return true
+			})
+		}
+	}
+	l.def("pifCallArity", "List String", leanStrList(arity), arity)
 	src := iam.assignedFrom("validateS2SPresentationNonce", "nonce")
 	l.def("s2sNonceSource", "String", fmt.Sprintf("%q", src), src)
 
@@ -650,6 +691,26 @@ func extractC05() *lean {
 		pl = append(pl, leanStrList(v))
 	}
 	l.def("allStorePrefixes", "List (List String)", "["+strings.Join(pl, ", ")+"]", allPrefixes)
+	// the same, every segment as a list of characters (what the Lean key-space theorems compute with)
+	var segLists []string
+	for _, v := range allPrefixes {
+		var segs []string
+		for _, seg := range v {
+			var cs []string
+			for _, r := range seg {
+				cs = append(cs, fmt.Sprintf("Char.ofNat %d", r))
+			}
+			segs = append(segs, "["+strings.Join(cs, ", ")+"]")
+		}
+		segLists = append(segLists, "["+strings.Join(segs, ", ")+"]")
+	}
+	l.def("allStorePrefixChars", "List (List (List Char))", "["+strings.Join(segLists, ",\n  ")+"]", "allStorePrefixes, characters")
+	sepCode := func(s string) string {
+		if len(s) == 1 {
+			return fmt.Sprintf("Char.ofNat %d", s[0])
+		}
+		return "Char.ofNat 0" // no single-character separator found: the fact theorems pin the expected one
+	}
 	chars := func(sep string) string {
 		var paths []string
 		for _, v := range allPrefixes {
@@ -663,6 +724,8 @@ func extractC05() *lean {
 	}
 	memSep, _ := l.facts["memKeySep"].(string)
 	redisSep, _ := l.facts["redisKeySep"].(string)
+	l.def("memKeySepChar", "Char", sepCode(memSep), memSep)
+	l.def("redisKeySepChar", "Char", sepCode(redisSep), redisSep)
 	l.def("storePathsMem", "List (List Char)", chars(memSep), "chars of strings.Join(prefix, memKeySep)+memKeySep per store")
 	l.def("storePathsRedis", "List (List Char)", chars(redisSep), "chars of strings.Join(prefix, redisKeySep)+redisKeySep per store")
 
